@@ -18,7 +18,8 @@ META = {
             "factor applied at each threshold is proved to be 1 + sum_{n<order} a^n sum_k c_nk L^k with L the log of the ratio of the "
             "quark being crossed, the table taken at the nf of the lower patch, upward or its perturbative inverse downward (so a "
             "round trip is the identity through the implemented order), and to be exactly 1 at LO, and at NLO for unit ratio."
-            " With the reference point ON a matching scale (empty first segment) the evolution beyond the wall starts from a_ref times the matching factor.",
+            " With the reference point ON a matching scale (empty first segment) the evolution beyond the wall starts from a_ref times the matching factor."
+            " Paths with two thresholds and one coupling object asked in both flavour directions are evaluated at N3LO with matching tables whose entries are tagged by direction and flavour number: every wall is matched with its own table (nothing remembered from another wall or an earlier request).",
     "note": "Decides the formulas and wiring of the matching, not the numerical coupling. Literature constants are decimal in the "
             "source (340.729...), compared within 2e-6 relative; rational entries exactly.",
     "technique": "partial evaluation with mocked collaborators + RG-invariance derivation (sympy linear solve) + polynomial identity testing",
@@ -239,6 +240,7 @@ def run(chk):
                         ok3, _ = dag.is_zero_fp([dag.sub(at1, A1)], chk.seed, 2)
                         chk.decide(ok3, "continuity-at-low-order", fa.qname, f"coupling is not continuous at NLO for unit ratio ({inst})",
                                    where=fa.where, instance=inst)
+    tables_per_wall(chk, src)
     # ---------------------------------------------------------------- (c) reference exactly on a matching scale, evaluated twice
     # the first segment has zero length and is skipped, the matching acts directly on the reference values: the stored boundary
     # condition must not be touched (the decoupling relation depends on the path only, not on how often it was evaluated)
@@ -315,6 +317,89 @@ def run(chk):
     chk.note(instances=n_inst, files=["src/eko/couplings.py", "src/eko/matchings.py"])
     chk.explanation = ("Decoupling tables compared with literature constants and RG-derived logarithms; the matching step of "
                        "Couplings.a extracted for every scheme/order/threshold/direction and compared with the required series.")
+
+
+def tables_per_wall(chk, src, rule="every-wall-is-matched-with-its-own-table"):
+    """Couplings.a along paths with TWO thresholds, and one object asked in both flavour directions one after the other (order 4, the
+    only order at which the tables depend on nf): the factor applied at a wall is built from the table of THAT wall - upward the table
+    of the flavour number being left, downward the inverse table of the flavour number being entered.  compute_matching_coeffs_up /
+    _down are recording stand-ins whose entries are symbols tagged with direction and flavour number (shared with C22)."""
+    from ..pe import decide_on_values
+
+    cls = src.cls(f"{CP}.Couplings")
+    fa = src.func(f"{CP}.Couplings.a")
+    seg_cls = src.cls("eko.matchings.Segment")
+    n_cases = 0
+
+    def table(tag):
+        return lambda p, a, k: Arr.from_nested([[dag.sym(f"{tag}{a[1]}_{n}{m}") if (0 < n and m <= n) else 0 for m in range(4)] for n in range(4)])
+
+    def run_path(pe, self_, nfs, scales):
+        segs = [pe.instantiate(seg_cls.qname, [dag.sym(scales[i]), dag.sym(scales[i + 1]), nf]) for i, nf in enumerate(nfs)]
+        calls = []
+        pe.overrides[f"{CP}.Couplings.compute"] = lambda p_, a, k: calls.append(a) or Arr.from_nested([dag.sym(f"A{len(calls)}"), dag.sym(f"AEM{len(calls)}")])
+        pe.overrides["eko.matchings.Atlas.path"] = lambda p_, a, k: list(segs)
+        rising = nfs[-1] > nfs[0]
+        rep = {sc: Fraction(i + 1) if rising else Fraction(10 - i) for i, sc in enumerate(scales)}
+        pe.assume = lambda text, env: decide_on_values(pe, text, env) if "isclose" in text else decide_on_values(pe, text, env, rep, generic=False)
+        pe.order_rep = lambda: rep
+        try:
+            pe.apply(pe.getattr(self_, "a"), [dag.sym(scales[-1]), nfs[-1]], {})
+        finally:
+            pe.assume = None
+            pe.order_rep = None
+        return calls
+
+    def new_pe():
+        pe = PE(src)
+        pe.overrides[f"{CP}.compute_matching_coeffs_up"] = table("U")
+        pe.overrides[f"{CP}.compute_matching_coeffs_down"] = table("D")
+        pe.overrides["eko.matchings.lepton_number"] = lambda p_, a, k: 3
+        return pe
+
+    def new_self(pe):
+        self_ = Obj(cls)
+        self_.attrs.update(a_ref=Arr.from_nested([dag.sym("a_ref"), dag.sym("aem_ref")]), order=(4, 0), hqm_scheme="POLE",
+                           thresholds_ratios=[dag.sym("k_c"), dag.sym("k_b"), dag.sym("k_t")], atlas=Obj(src.cls("eko.matchings.Atlas")), cache={},
+                           method="expanded", alphaem_running=False, decoupled_running=False)
+        return self_
+
+    def judge(calls, nfs, inst):
+        """the value handed to solver call i+1 carries table symbols of wall i only"""
+        for i in range(1, len(nfs)):
+            up = nfs[i] > nfs[i - 1]
+            own = f"{'U' if up else 'D'}{min(nfs[i], nfs[i - 1])}_"
+            if len(calls) <= i:
+                return f"only {len(calls)} solver calls along a path of {len(nfs)} segments"
+            tabs = {s_ for s_ in dag.symbols(dag.tonode(calls[i][1][0])) if s_[:1] in "UD" and "_" in s_ and s_[1:2].isdigit()}
+            # an upward table may legitimately be inverted by the library itself: U-symbols of the right nf count as the wall's own
+            alt = f"U{min(nfs[i], nfs[i - 1])}_"
+            foreign = sorted(t for t in tabs if not t.startswith(own) and not t.startswith(alt))
+            if foreign or not tabs:
+                return (f"the factor at the wall between nf={nfs[i - 1]} and nf={nfs[i]} is built from the table entries {foreign[:4] or 'of no table'}; "
+                        f"required entries of the table for {min(nfs[i], nfs[i - 1])} light flavours ({own}..)")
+        return None
+
+    try:
+        for nfs in ((3, 4, 5), (4, 5, 6), (5, 4, 3), (6, 5, 4)):
+            pe = new_pe()
+            why = judge(run_path(pe, new_self(pe), nfs, ["s0", "s1", "s2", "s3"]), nfs, "")
+            n_cases += 1
+            chk.decide(why is None, rule, fa.qname, f"path nf {' -> '.join(map(str, nfs))} at N3LO: {why}", where=fa.where, instance=f"two walls,{nfs}",
+                       how="PE with tagged matching tables")
+        for first, second in (((4, 5), (4, 3)), ((4, 3), (4, 5)), ((5, 6), (5, 4)), ((5, 4), (5, 6))):
+            pe = new_pe()
+            self_ = new_self(pe)
+            why = judge(run_path(pe, self_, first, ["s0", "s1", "s2"]), first, "")
+            why2 = judge(run_path(pe, self_, second, ["s0", "t1", "t2"]), second, "")
+            n_cases += 1
+            chk.decide(why is None and why2 is None, rule, fa.qname,
+                       f"one coupling object asked for nf {first[0]} -> {first[1]} and then for nf {second[0]} -> {second[1]} at N3LO: {why or why2} "
+                       f"(something computed for the first request is remembered)", where=fa.where, instance=f"one object,{first},{second}",
+                       how="PE with tagged matching tables, two requests on one object")
+    except PERaise as e:
+        chk.fail(rule, fa.qname, f"Couplings.a raises {e}", where=fa.where, instance="raises")
+    chk.floor("paths with tagged tables", n_cases, 8)
 
 
 def _invert_series(T: Arr) -> Arr:
